@@ -211,10 +211,25 @@ impl Hook for Sched {
     }
 }
 
-fn build_tree(root: &Path, entries: &[String]) {
+fn err_path(e: &ignore::Error) -> Option<std::path::PathBuf> {
+    match e {
+        ignore::Error::WithPath { path, .. } => Some(path.clone()),
+        ignore::Error::WithDepth { err, .. } => err_path(err),
+        ignore::Error::WithLineNumber { err, .. } => err_path(err),
+        _ => None,
+    }
+}
+
+fn build_tree(root: &Path, entries: &[String], errs: &BTreeSet<String>) {
     for e in entries {
         let p = root.join(e.trim_end_matches('/'));
-        if e.ends_with('/') {
+        if errs.contains(e.as_str()) {
+            // an entry that cannot be read once links are followed: a dangling symbolic link
+            if let Some(parent) = p.parent() {
+                std::fs::create_dir_all(parent).unwrap();
+            }
+            std::os::unix::fs::symlink(root.join("__nowhere__"), &p).unwrap();
+        } else if e.ends_with('/') {
             std::fs::create_dir_all(&p).unwrap();
         } else {
             if let Some(parent) = p.parent() {
@@ -236,11 +251,15 @@ fn run_scenario(v: &Value, base: &Path) -> Value {
         v["forced"].as_array().map(|a| a.iter().map(|x| x.as_u64().unwrap() as usize - 1).collect()).unwrap_or_default();
     let quit: BTreeSet<String> =
         v["quit"].as_array().map(|a| a.iter().map(|x| x.as_str().unwrap().to_string()).collect()).unwrap_or_default();
+    let errs: BTreeSet<String> =
+        v["err"].as_array().map(|a| a.iter().map(|x| x.as_str().unwrap().to_string()).collect()).unwrap_or_default();
+    let skip: BTreeSet<String> =
+        v["skip"].as_array().map(|a| a.iter().map(|x| x.as_str().unwrap().to_string()).collect()).unwrap_or_default();
     let max_steps = v["max_steps"].as_u64().unwrap_or(20000) as usize;
     let root = base.join(format!("t{}", seed % 1000003));
     let _ = std::fs::remove_dir_all(&root);
     std::fs::create_dir_all(&root).unwrap();
-    build_tree(&root, &entries);
+    build_tree(&root, &entries, &errs);
 
     let mut rng = StdRng::seed_from_u64(seed);
     let mut prio: Vec<i64> = (0..threads as i64).collect();
@@ -286,13 +305,14 @@ fn run_scenario(v: &Value, base: &Path) -> Value {
     for r in &roots[1..] {
         wb.add(root.join(r));
     }
-    wb.threads(threads).standard_filters(false).follow_links(false);
+    wb.threads(threads).standard_filters(false).follow_links(!errs.is_empty());
     let walker = wb.build_parallel();
 
     let done = Arc::new(Mutex::new(false));
     let sched2 = sched.clone();
     let root2 = root.clone();
     let quit2 = quit.clone();
+    let skip2 = skip.clone();
     let done2 = done.clone();
     let handle = std::thread::spawn(move || {
         let r = std::panic::catch_unwind(std::panic::AssertUnwindSafe(|| {
@@ -300,10 +320,11 @@ fn run_scenario(v: &Value, base: &Path) -> Value {
                 let s = sched2.clone();
                 let root = root2.clone();
                 let quit = quit2.clone();
+                let skip = skip2.clone();
                 Box::new(move |res| {
                     let (p, err) = match res {
                         Ok(d) => (rel(&root, d.path()), false),
-                        Err(_) => ("<error>".to_string(), true),
+                        Err(e) => (err_path(&e).map(|p| rel(&root, &p)).unwrap_or_else(|| "<error>".to_string()), true),
                     };
                     let w = WORKER.with(|w| w.get());
                     let q = quit.contains(&p);
@@ -312,7 +333,7 @@ fn run_scenario(v: &Value, base: &Path) -> Value {
                         *g.visits.entry(p.clone()).or_insert(0) += 1;
                         g.trace.push(json!({"ev":"Visit","w":w.wrapping_add(1),"path":p,"quit":q,"err":err}));
                     }
-                    if q { WalkState::Quit } else { WalkState::Continue }
+                    if q { WalkState::Quit } else if skip.contains(&p) { WalkState::Skip } else { WalkState::Continue }
                 })
             })
         }));
